@@ -37,6 +37,7 @@ import (
 	"github.com/AdguardTeam/AdGuardHome/internal/vutil"
 	"github.com/AdguardTeam/dnsproxy/proxy"
 	"github.com/AdguardTeam/dnsproxy/upstream"
+	"github.com/AdguardTeam/golibs/hostsfile"
 	"github.com/AdguardTeam/golibs/logutil/slogutil"
 	"github.com/AdguardTeam/golibs/netutil"
 	"github.com/AdguardTeam/golibs/timeutil"
@@ -58,8 +59,23 @@ type c01List struct {
 	lines   []string
 }
 
+type c01Rewrite struct{ domain, answer string }
+
+type c01HostsRec struct {
+	addr  netip.Addr
+	names []string
+}
+
 type c01Case struct {
 	extraProbes [][2]string
+
+	// widened model: legacy rewrites, hosts container, safe browsing / parental
+	rewrites         []c01Rewrite
+	hosts            []c01HostsRec
+	sbOn, parOn      bool
+	sbHost, parHost  string
+	csb, cpar        bool
+	sbSet, parSet    []string
 
 	mode       string
 	bip4, bip6 netip.Addr
@@ -180,6 +196,8 @@ func c01RRTok(rr dns.RR, withStr bool) string {
 		return hd("CNAME") + vutil.Hex(v.Target)
 	case *dns.SOA:
 		return hd("SOA") + vutil.Hex(v.Mbox)
+	case *dns.PTR:
+		return hd("PTR") + vutil.Hex(v.Ptr)
 	case *dns.HTTPS:
 		var ps []string
 		for _, kv := range v.Value {
@@ -284,9 +302,59 @@ func c01ListFields(ls []c01List) (f []string) {
 	return f
 }
 
+func c01BlockHostTok(h string) string {
+	if h == "" {
+		return "-"
+	}
+	if a, err := netip.ParseAddr(h); err == nil {
+		return "ip=" + c01IPTok(a, "")
+	}
+
+	return "name=" + vutil.Hex(h)
+}
+
+// extFields renders the extension group (directly after the op name).
+func (c *c01Case) extFields() (f []string) {
+	f = append(f, strconv.Itoa(len(c.rewrites)))
+	for _, rw := range c.rewrites {
+		parsed := "none"
+		if a, err := netip.ParseAddr(rw.answer); err == nil {
+			fam := "6:"
+			if a.Is4() {
+				fam = "4:"
+			}
+			parsed = fam + vutil.Hex(a.String())
+		}
+		f = append(f, vutil.Hex(rw.domain), vutil.Hex(rw.answer), parsed)
+	}
+	f = append(f, strconv.Itoa(len(c.hosts)))
+	for _, h := range c.hosts {
+		f = append(f, c01IPTok(h.addr, ""), strconv.Itoa(len(h.names)))
+		for _, n := range h.names {
+			f = append(f, vutil.Hex(n))
+		}
+	}
+	// oracle: netutil.IPFromReversedAddr of the queried host
+	arpa := "nil"
+	if a, err := netutil.IPFromReversedAddr(strings.ToLower(strings.TrimSuffix(c.qname, "."))); err == nil {
+		arpa = c01IPTok(a, "")
+	}
+	f = append(f, arpa, vutil.B(c.sbOn), vutil.B(c.parOn), c01BlockHostTok(c.sbHost), c01BlockHostTok(c.parHost),
+		vutil.B(c.csb), vutil.B(c.cpar))
+	for _, set := range [][]string{c.sbSet, c.parSet} {
+		f = append(f, strconv.Itoa(len(set)))
+		for _, h := range set {
+			f = append(f, vutil.Hex(h))
+		}
+	}
+
+	return f
+}
+
 func (c *c01Case) fields(op string) (f []string) {
-	f = []string{op, c.mode, c01IPTok(c.bip4, ""), c01IPTok(c.bip6, ""), strconv.Itoa(c.ttl),
-		vutil.B(c.prot), c.pause, vutil.B(c.gfilt), vutil.B(c.aaaaDis), vutil.B(c.gSched)}
+	f = append([]string{op}, c.extFields()...)
+	f = append(f, c.mode, c01IPTok(c.bip4, ""), c01IPTok(c.bip6, ""), strconv.Itoa(c.ttl),
+		vutil.B(c.prot), c.pause, vutil.B(c.gfilt), vutil.B(c.aaaaDis), vutil.B(c.gSched))
 	f = append(f, c01SvcFields(c.gSvc)...)
 	f = append(f, vutil.B(c.hasClient), vutil.Hex(c.cname), vutil.B(c.useOwn), vutil.B(c.cfilt),
 		vutil.B(c.useOwnBS), vutil.B(c.cSched))
@@ -344,9 +412,34 @@ func (r *c01Reader) lists() (l []c01List) {
 	return l
 }
 
+func c01ParseBlockHost(tok string) string {
+	switch {
+	case tok == "-":
+		return ""
+	case strings.HasPrefix(tok, "ip="):
+		return c01ParseIPTok(tok[3:]).String()
+	default:
+		return vutil.Unhex(strings.TrimPrefix(tok, "name="))
+	}
+}
+
 func c01Decode(f []string) (c *c01Case) {
 	r := &c01Reader{f: f, i: 1}
 	c = &c01Case{}
+	for n := r.int(); n > 0; n-- {
+		d, a := r.str(), r.str()
+		r.next() // ParseAddr oracle (for the driver)
+		c.rewrites = append(c.rewrites, c01Rewrite{domain: d, answer: a})
+	}
+	for n := r.int(); n > 0; n-- {
+		a := c01ParseIPTok(r.next())
+		c.hosts = append(c.hosts, c01HostsRec{addr: a, names: r.strs()})
+	}
+	r.next() // arpa oracle (for the driver)
+	c.sbOn, c.parOn = r.bool(), r.bool()
+	c.sbHost, c.parHost = c01ParseBlockHost(r.next()), c01ParseBlockHost(r.next())
+	c.csb, c.cpar = r.bool(), r.bool()
+	c.sbSet, c.parSet = r.strs(), r.strs()
 	c.mode = r.next()
 	c.bip4, c.bip6 = c01ParseIPTok(r.next()), c01ParseIPTok(r.next())
 	c.ttl, c.prot, c.pause, c.gfilt, c.aaaaDis, c.gSched = r.int(), r.bool(), r.next(), r.bool(), r.bool(), r.bool()
@@ -511,6 +604,7 @@ func (c *c01Case) oracleFields() (f []string) {
 type c01Upstream struct {
 	mu     sync.Mutex
 	calls  map[uint16][]string
+	order  []string
 	rcode  int
 	answer []dns.RR
 }
@@ -523,7 +617,9 @@ func (u *c01Upstream) Exchange(m *dns.Msg) (resp *dns.Msg, err error) {
 	if u.calls == nil {
 		u.calls = map[uint16][]string{}
 	}
-	u.calls[m.Id] = append(u.calls[m.Id], vutil.Hex(q.Name)+":"+strconv.Itoa(int(q.Qtype)))
+	tok := vutil.Hex(q.Name) + ":" + strconv.Itoa(int(q.Qtype))
+	u.calls[m.Id] = append(u.calls[m.Id], tok)
+	u.order = append(u.order, tok)
 	u.mu.Unlock()
 	resp = new(dns.Msg).SetReply(m)
 	resp.Rcode = u.rcode
@@ -539,6 +635,18 @@ func (u *c01Upstream) take(id uint16) (calls []string) {
 	defer u.mu.Unlock()
 	calls = u.calls[id]
 	delete(u.calls, id)
+	u.order = nil
+
+	return calls
+}
+
+// takeAll returns every recorded call in order of arrival (sequential modes:
+// genBlockedHost resolves the block host under a request id of its own).
+func (u *c01Upstream) takeAll() (calls []string) {
+	u.mu.Lock()
+	defer u.mu.Unlock()
+	calls = u.order
+	u.order, u.calls = nil, nil
 
 	return calls
 }
@@ -575,6 +683,12 @@ func (l *c01QueryLog) take(req *dns.Msg) (p *querylog.AddParams) {
 	return p
 }
 
+// c01Checker is the scripted safe-browsing / parental checker (the real one is
+// a hash-prefix lookup, property C19).
+type c01Checker struct{ blocked map[string]bool }
+
+func (ck *c01Checker) Check(host string) (block bool, err error) { return ck.blocked[host], nil }
+
 type c01Env struct {
 	s       *Server
 	f       *filtering.DNSFilter
@@ -583,6 +697,9 @@ type c01Env struct {
 	ql      *c01QueryLog
 	dataDir string
 	storage *client.Storage
+	sbCk    *c01Checker
+	parCk   *c01Checker
+	concurrent bool
 
 	// sequence / reload modes
 	cur        *c01Case
@@ -591,10 +708,8 @@ type c01Env struct {
 	reloadDone chan struct{}
 }
 
-func c01NewEnv(t *testing.T, cacheSize uint32) (e *c01Env) {
-	filtering.InitModule()
-	e = &c01Env{ups: &c01Upstream{}, ql: &c01QueryLog{}, dataDir: t.TempDir()}
-	e.fconf = &filtering.Config{
+func (e *c01Env) newFilterConf() *filtering.Config {
+	return &filtering.Config{
 		DataDir:           e.dataDir,
 		ProtectionEnabled: true,
 		FilteringEnabled:  true,
@@ -605,8 +720,16 @@ func c01NewEnv(t *testing.T, cacheSize uint32) (e *c01Env) {
 				e.storage.ApplyClientFiltering(id, addr, setts)
 			}
 		},
-		ConfigModified: func() {},
+		ConfigModified:         func() {},
+		SafeBrowsingChecker:    e.sbCk,
+		ParentalControlChecker: e.parCk,
 	}
+}
+
+func c01NewEnv(t *testing.T, cacheSize uint32) (e *c01Env) {
+	filtering.InitModule()
+	e = &c01Env{ups: &c01Upstream{}, ql: &c01QueryLog{}, dataDir: t.TempDir(), sbCk: &c01Checker{}, parCk: &c01Checker{}}
+	e.fconf = e.newFilterConf()
 	f, err := filtering.New(e.fconf, nil)
 	if err != nil {
 		t.Fatal(err)
@@ -686,7 +809,38 @@ func c01BlockedServices(svcs []c01Service, schedNow bool) *filtering.BlockedServ
 // apply configures the running server for the case through the same entry
 // points the application uses (Set*, EnableFilters, client storage).
 func (e *c01Env) apply(c *c01Case) {
-	f, fc := e.f, e.fconf
+	// A fresh DNSFilter per case: filtering.New runs the real prepareRewrites /
+	// normalize on the rewrite table (as at start-up); everything else is set
+	// through the entry points the application uses.
+	fc := e.newFilterConf()
+	for _, rw := range c.rewrites {
+		fc.Rewrites = append(fc.Rewrites, &filtering.LegacyRewrite{Domain: rw.domain, Answer: rw.answer})
+	}
+	hs, _ := hostsfile.NewDefaultStorage()
+	for _, h := range c.hosts {
+		hs.Add(&hostsfile.Record{Addr: h.addr, Names: h.names, Source: "verif"})
+	}
+	fc.EtcHosts = hs
+	fc.SafeBrowsingEnabled, fc.ParentalEnabled = c.sbOn, c.parOn
+	fc.SafeBrowsingBlockHost, fc.ParentalBlockHost = c.sbHost, c.parHost
+	e.sbCk.blocked, e.parCk.blocked = map[string]bool{}, map[string]bool{}
+	for _, h := range c.sbSet {
+		e.sbCk.blocked[h] = true
+	}
+	for _, h := range c.parSet {
+		e.parCk.blocked[h] = true
+	}
+	f, err := filtering.New(fc, nil)
+	if err != nil {
+		panic(err)
+	}
+	e.s.serverLock.Lock()
+	old := e.s.dnsFilter
+	e.s.dnsFilter = f
+	e.s.serverLock.Unlock()
+	old.Close()
+	e.f, e.fconf = f, fc
+
 	f.SetBlockingMode(c01Mode(c.mode), c.bip4, c.bip6)
 	fc.BlockingIPv4, fc.BlockingIPv6 = c.bip4, c.bip6
 	f.SetBlockedResponseTTL(uint32(c.ttl))
@@ -705,8 +859,8 @@ func (e *c01Env) apply(c *c01Case) {
 
 	// rule lists: files in DataDir/filters/<id>.txt, user rules inline
 	fdir := filepath.Join(e.dataDir, "filters")
-	old, _ := filepath.Glob(filepath.Join(fdir, "*.txt"))
-	for _, p := range old {
+	oldFiles, _ := filepath.Glob(filepath.Join(fdir, "*.txt"))
+	for _, p := range oldFiles {
 		_ = os.Remove(p)
 	}
 	id := 1
@@ -741,6 +895,8 @@ func (e *c01Env) apply(c *c01Case) {
 			FilteringEnabled:      c.cfilt,
 			UseOwnBlockedServices: c.useOwnBS,
 			BlockedServices:       c01BlockedServices(c.cSvc, c.cSched),
+			SafeBrowsingEnabled:   c.csb,
+			ParentalEnabled:       c.cpar,
 		}
 		st, err := client.NewStorage(context.Background(), &client.StorageConfig{
 			Logger:         slogutil.NewDiscardLogger(),
@@ -794,7 +950,12 @@ func (e *c01Env) query(cip netip.Addr, qname string, qtype uint16) (obs []string
 	for e.s.protectionUpdateInProgress.Load() {
 		time.Sleep(50 * time.Microsecond)
 	}
-	calls := e.ups.take(req.Id)
+	var calls []string
+	if e.concurrent {
+		calls = e.ups.take(req.Id)
+	} else {
+		calls = e.ups.takeAll()
+	}
 	p := e.ql.take(req)
 	if err != nil || pctx.Res == nil {
 		return []string{"err"}
@@ -823,6 +984,7 @@ func (e *c01Env) query(cip netip.Addr, qname string, qtype uint16) (obs []string
 // configure applies a case and points the mock upstream at its script.
 func (e *c01Env) configure(c *c01Case) {
 	e.stopReload()
+	e.concurrent = false
 	e.apply(c)
 	e.ups.rcode, e.ups.answer = c.urcode, c.uans
 	e.cur = c
@@ -900,6 +1062,7 @@ func (e *c01Env) run(fields []string) (obs []string) {
 		c := c01Decode(append([]string{fields[0]}, fields[2:]...))
 		c.block = append(c.block, c01List{enabled: true, lines: c01Filler(n)})
 		e.configure(c)
+		e.concurrent = true
 		e.startReload()
 
 		return []string{"started"}
@@ -1231,10 +1394,74 @@ func c01GenCase(r *rand.Rand) (c *c01Case) {
 			}
 		}
 	}
+	c01GenExt(r, c)
 	c01CleanAnswer(r, c)
 	c01ExtraProbes(r, c, target)
 
 	return c
+}
+
+var c01BlockHosts = []string{"", "198.51.100.66", "2001:db8::bad", "standard-block.dns.adguard.com", "family-block.dns.adguard.com"}
+
+// c01GenExt adds, at moderate rates, what sits around the rule engines in the
+// checker chain: legacy rewrites, hosts-container records, safe browsing /
+// parental with scripted verdicts.
+func c01GenExt(r *rand.Rand, c *c01Case) {
+	host := strings.ToLower(strings.TrimSuffix(c.qname, "."))
+	parent := host
+	if i := strings.IndexByte(host, '.'); i > 0 {
+		parent = host[i+1:]
+	}
+	if host != "" && r.IntN(8) == 0 {
+		for n := 1 + r.IntN(3); n > 0; n-- {
+			c.rewrites = append(c.rewrites, c01Rewrite{
+				domain: vutil.Pick(r, []string{host, host, "*." + parent, "*." + host, c01MixCase(r, host), vutil.Pick(r, c01Domains), parent}),
+				answer: vutil.Pick(r, []string{"1.2.3.4", "10.9.8.7", "::1", "2001:db8::77", "::ffff:1.2.3.4", "A", "AAAA",
+					"canon.example.net", "Other.Example.NET", host, "tracker.net", "ads.example.org", "0:0:0:0:0:0:0:1"}),
+			})
+		}
+	}
+	if host != "" && r.IntN(10) == 0 {
+		ips := []string{"192.168.7.7", "10.20.30.40", "fd00::7", "::ffff:10.1.1.1", "192.168.7.8"}
+		for n := 1 + r.IntN(3); n > 0; n-- {
+			rec := c01HostsRec{addr: netip.MustParseAddr(vutil.Pick(r, ips))}
+			for k := r.IntN(3); k >= 0; k-- {
+				rec.names = append(rec.names, vutil.Pick(r, []string{host, host, c01MixCase(r, host), "printer.lan", "nas.lan", parent}))
+			}
+			if r.IntN(10) == 0 {
+				rec.names = nil
+			}
+			c.hosts = append(c.hosts, rec)
+		}
+		if r.IntN(3) == 0 {
+			// a reverse query for one of the addresses (or a neighbour)
+			a := vutil.Pick(r, c.hosts).addr
+			if r.IntN(4) == 0 {
+				a = netip.MustParseAddr(vutil.Pick(r, ips))
+			}
+			if rev, err := netutil.IPToReversedAddr(a.AsSlice()); err == nil {
+				c.qname, c.qtype = rev+".", dns.TypePTR
+				if r.IntN(5) == 0 {
+					c.qtype = dns.TypeA
+				}
+			}
+		}
+	}
+	if r.IntN(5) == 0 {
+		c.sbOn, c.parOn = r.IntN(3) > 0, r.IntN(3) > 0
+		c.sbHost, c.parHost = vutil.Pick(r, c01BlockHosts), vutil.Pick(r, c01BlockHosts)
+		if c.hasClient {
+			c.csb, c.cpar = r.IntN(2) == 0, r.IntN(2) == 0
+		}
+		for _, set := range []*[]string{&c.sbSet, &c.parSet} {
+			if r.IntN(2) == 0 && host != "" {
+				*set = append(*set, host)
+			}
+			if r.IntN(3) == 0 {
+				*set = append(*set, vutil.Pick(r, c01Domains))
+			}
+		}
+	}
 }
 
 // c01ExtraProbes adds host names the pipeline does not look at in this case;
@@ -1323,6 +1550,12 @@ func c01ReloadGen(r *rand.Rand, emit vutil.Emit) {
 			c.cfilt = true
 		}
 		c.extraProbes = nil
+		// the reload mode is about the rule engines only
+		c.rewrites, c.hosts, c.sbOn, c.parOn, c.sbSet, c.parSet, c.sbHost, c.parHost, c.csb, c.cpar =
+			nil, nil, false, false, nil, nil, "", "", false, false
+		if c.qtype == dns.TypePTR {
+			c.qtype = dns.TypeA
+		}
 		base0 := strings.TrimSuffix(strings.ToLower(c.qname), ".")
 		if base0 == "" || strings.HasPrefix(base0, ".") {
 			base0 = "example.org"
